@@ -589,7 +589,9 @@ func (h *c14H) receive(g *c14Gen, s int, ev Event) (bool, error) {
 	switch o {
 	case "done", "doneFinishFail":
 		return true, nil
-	case "notDone", "notDoneWriteFail":
+	case "notDone", "notDoneWriteFail", "readFault":
+		// "readFault" reaches the receiver only when the implementation did not read the job before calling (the injected
+		// fault sits in that read): behave as "not done"; the line differs from the model and the oracles judge the rest
 		return false, nil
 	case "failWriteFail":
 		return false, errors.New("scripted failure")
